@@ -590,6 +590,7 @@ func (c sumCase) Nontrivial() bool  { return len(c.Keys) > 1 }
 //	edit:<p>  add:<p>  del:<p>      change / add / delete a source file of package p
 //	rmsum  corrupt                   delete / corrupt gengo.sum
 //	run  force  fail:<p>  sub:<p>    Execute with All / with All+Force / with a generator error in p / on entrypoint p only (no All)
+//	cancel:<p>                       Execute with All, the caller's context being cancelled while p is generated
 type histCase struct {
 	S   PScn     `json:"scenario"`
 	Ops []string `json:"ops"`
@@ -706,9 +707,17 @@ func runHistoryHere(c *histCase) *histOut {
 			os.Remove(filepath.Join(dir, "gengo.sum"))
 		case "corrupt":
 			os.WriteFile(filepath.Join(dir, "gengo.sum"), []byte("\x00garbage\n\n"), 0o644)
-		case "run", "force", "fail", "sub":
+		case "run", "force", "fail", "sub", "cancel":
 			r := cloneScn(s)
 			r.All, r.Force = true, f[0] == "force"
+			if f[0] == "cancel" && pi >= 0 {
+				// the caller's context is cancelled while package pi is being generated
+				for _, t := range s.Pkgs[pi].Types {
+					if t.defined() {
+						r.Cancel = "rec@" + s.Pkgs[pi].path() + "@" + t.Name
+					}
+				}
+			}
 			if f[0] == "fail" && pi >= 0 {
 				for _, t := range s.Pkgs[pi].Types {
 					if t.defined() {
@@ -814,7 +823,7 @@ func (c *histCase) Oracle(out string) string {
 			sumValid = false
 			recorded = map[string]string{}
 			continue
-		case "run", "force", "fail", "sub":
+		case "run", "force", "fail", "sub", "cancel":
 		default:
 			continue
 		}
@@ -848,6 +857,9 @@ func (c *histCase) Oracle(out string) string {
 			mustRegen := f[0] == "force" || !sumValid || recorded[pp] == "" || recorded[pp] != r.Content[pp]
 			if strings.HasPrefix(r.Result, "generate:") && pp > failedPkg {
 				continue // the run stopped at the failing package
+			}
+			if r.Result != "ok" && !strings.HasPrefix(r.Result, "generate:") {
+				continue // the run gave up for another reason (a cancelled context, say): where it stopped is its own business — what it must not do is record work as done (judged below)
 			}
 			if mustRegen && !gen[pp] {
 				return fmt.Sprintf("step %q: package %s was skipped as cached although its directory changed since the sum was recorded (or the sum was missing / Force was set)", op, p.Dir)
@@ -933,7 +945,7 @@ func genHistory(r *Rng) *histCase {
 	n := 4 + r.Intn(7)
 	for i := 0; i < n; i++ {
 		p := r.Intn(k)
-		switch r.Intn(17) {
+		switch r.Intn(18) {
 		case 14, 15:
 			c.Ops = append(c.Ops, fmt.Sprintf("link:%d", p))
 		case 16:
@@ -958,6 +970,8 @@ func genHistory(r *Rng) *histCase {
 			c.Ops = append(c.Ops, "corrupt")
 		case 13:
 			c.Ops = append(c.Ops, fmt.Sprintf("delgen:%d", p))
+		case 17:
+			c.Ops = append(c.Ops, fmt.Sprintf("cancel:%d", p))
 		}
 	}
 	c.Ops = append(c.Ops, "run", "run", "run") // convergence tail
@@ -1075,7 +1089,7 @@ func init() {
 			Name: "history", Quick: 80, Thorough: 600, New: func() Case { return &histCase{} },
 			Gen:      func(r *Rng, i int) Case { return genHistory(r) },
 			BatchRun: histBatch, ShrinkBudget: 40, MaxShrinks: 4,
-			Rule: "histories of 4–10 steps over 2–3 packages from {edit, add, delete a file, create / retarget a symbolic link to a source file kept outside the package directory, edit the file behind the link, delete a generated file, delete / corrupt gengo.sum, run, run with Force, run failing in p, run on entrypoint p without All} followed by three plain runs, on one persistent real module; oracle: ground truth from the harness's own content ids of the directories at load time (not from hashes): skipped ⇔ unchanged since the sum was recorded, failed runs keep the sum, three runs converge",
+			Rule: "histories of 4–10 steps over 2–3 packages from {edit, add, delete a file, create / retarget a symbolic link to a source file kept outside the package directory, edit the file behind the link, delete a generated file, delete / corrupt gengo.sum, run, run with Force, run failing in p, run on entrypoint p without All, run whose context the caller cancels while p is being generated} followed by three plain runs, on one persistent real module; oracle: ground truth from the harness's own content ids of the directories at load time (not from hashes): skipped ⇔ unchanged since the sum was recorded, failed runs keep the sum, three runs converge",
 		},
 	}})
 }
